@@ -38,11 +38,12 @@ type PS *S
 type LS []S
 type AR [2]T
 type CH chan T
+type Größe int
 type A = T
 `
 
 // (defined types of every underlying kind: basic, struct, interface, func, map, pointer, slice, array, channel)
-var NamedPlain = []string{"T", "U", "S", "E", "F", "M", "Buffer", "Duration", "Rand", "Template", "URL", "Time", "PS", "LS", "AR", "CH"}
+var NamedPlain = []string{"T", "U", "S", "E", "F", "M", "Buffer", "Duration", "Rand", "Template", "URL", "Time", "PS", "LS", "AR", "CH", "Größe"}
 var NamedGeneric = map[string]int{"List": 1, "Pair": 2}
 
 // World is a fabricated universe: any import path resolves to a package that declares Decls.
